@@ -200,32 +200,39 @@ def job_histories(first, h):
             acc.n += 1
             acc.validated += 1
             acc.nontrivial += 1
-            # one GherkinEvents
-            ge = GherkinEvents(GherkinEvents.Options(print_source=False, print_ast=True, print_pickles=True))
-            seen = set()
-            for i in hist:
-                off = ge.id_generator._id_counter
-                r = I.events(POOL[i], ge=ge)
-                if r[0] != 'ok':
-                    acc.violation('stream-exception', case, r[1])
-                    break
-                evs = [e for e in r[1] if 'source' not in e]
-                want = [e for e in solos[i] if 'source' not in e]
-                if norm_ids(evs, off) != want:
-                    acc.violation('history-ids', case, 'document %d of the history: ids are not the fresh-generator ids plus the running offset %d' % (i, off))
-                    break
-                new = set()
-                for e in evs:
-                    new |= set(collect(e, {}).keys())
-                    if 'pickle' in e:
-                        new.add(e['pickle']['id'])
-                        new |= {s['id'] for s in e['pickle']['steps']}
-                if new & seen:
-                    acc.violation('history-id-reuse', case, 'ids reused across documents of one stream: %s' % sorted(new & seen)[:5])
-                    break
-                seen |= new
-                acc.states.add(('offset>0', off > 0, i))
-                acc.trans.add((i, off > 0, len(new) > 0))
+            # one GherkinEvents (also with its parser in stop-at-first-error mode)
+            for stop in (False, True):
+              ge = GherkinEvents(GherkinEvents.Options(print_source=False, print_ast=True, print_pickles=True))
+              ge.parser.stop_at_first_error = stop
+              seen = set()
+              for i in hist:
+                  off = ge.id_generator._id_counter
+                  r = I.events(POOL[i], ge=ge)
+                  if r[0] != 'ok':
+                      acc.violation('stream-exception', case, r[1])
+                      break
+                  evs = [e for e in r[1] if 'source' not in e]
+                  want = [e for e in solos[i] if 'source' not in e]
+                  if stop and want and 'parseError' in want[0]:
+                      if not evs or any('parseError' not in e for e in evs):
+                          acc.violation('history-ids', case, 'rejected document %d in stop-at-first-error mode does not yield parse errors only' % i)
+                          break
+                      continue
+                  if norm_ids(evs, off) != want:
+                      acc.violation('history-ids', case, 'document %d of the history: ids are not the fresh-generator ids plus the running offset %d' % (i, off))
+                      break
+                  new = set()
+                  for e in evs:
+                      new |= set(collect(e, {}).keys())
+                      if 'pickle' in e:
+                          new.add(e['pickle']['id'])
+                          new |= {s['id'] for s in e['pickle']['steps']}
+                  if new & seen:
+                      acc.violation('history-id-reuse', case, 'ids reused across documents of one stream: %s' % sorted(new & seen)[:5])
+                      break
+                  seen |= new
+                  acc.states.add(('offset>0', off > 0, i))
+                  acc.trans.add((i, off > 0, len(new) > 0))
             # one Parser + Compiler pair sharing a generator
             ig = IdGenerator()
             p = Parser(AstBuilder(ig))
